@@ -201,8 +201,63 @@ fn replay_mon(name: &str, steps: &[Step], version: Version, bufsize: Option<usiz
         rep.add("underlying_calls_shortened", g.c.short_reads + g.c.short_writes);
         rep.add("underlying_calls_interrupted", g.c.interrupted);
     }
+    let perturbed = shared.lock().perturb.is_some();
     shared.set_perturb(None);
-    Ok(RunResult { name: name.to_string(), trace, dump_hash: dh, bytes: Some(shared.bytes()) })
+    let bytes = shared.bytes();
+    if perturbed {
+        // the same bytes opened through a backend that shortens and interrupts its reads
+        // decode to the same tree (both modes)
+        for (k, mode) in [engine::Mode::Strict, engine::Mode::Permissive].into_iter().enumerate() {
+            let (f2, sh2) = MonFile::new(bytes.clone());
+            sh2.set_perturb(Some(Perturb { rng: Rng::new(fnv64(&bytes[..bytes.len().min(4096)]) ^ k as u64), short_pct: 40, intr_pct: 8 }));
+            let mut cf2 = engine::open_with(f2, mode, bufsize).map_err(|e| format!("{name}: reopening the written bytes through short/interrupted reads failed ({mode:?}): {e}"))?;
+            let dh2 = dump_hash(&mut cf2)?;
+            if dh2 != dh {
+                return Err(format!("{name}: dump after reopening through short/interrupted reads ({mode:?}) differs from the live dump"));
+            }
+            rep.count("reopens_through_perturbed_reads");
+        }
+    }
+    Ok(RunResult { name: name.to_string(), trace, dump_hash: dh, bytes: Some(bytes) })
+}
+
+/// Fixed histories that push a version 3 file past 109 (and 236) FAT sectors, so that the
+/// DIFAT chain is created, extended and read back under every configuration.
+fn big_steps(shard: u64) -> Vec<Step> {
+    use std::io::SeekFrom;
+    let s = 0usize;
+    let mut v = vec![Step::HOpen { slot: s, path: "/big".into(), how: OpenHow::Create }];
+    const ONE_DIFAT: u64 = 109 * 128 * 512; // first byte count that needs a 110th FAT sector (about)
+    match shard {
+        0 => v.push(Step::HSetLen { slot: s, n: 7_300_000 }),
+        1 => {
+            v.push(Step::HSetLen { slot: s, n: ONE_DIFAT - 70_000 });
+            v.push(Step::HSetLen { slot: s, n: ONE_DIFAT + 3 * 512 });
+        }
+        2 | 5 => v.push(Step::HSetLen { slot: s, n: 15_700_000 + shard * 4096 }),
+        3 => {
+            for _ in 0..8 {
+                v.push(Step::HWriteAll { slot: s, len: 920_000 });
+            }
+        }
+        _ => {
+            v.push(Step::HSetLen { slot: s, n: 7_400_000 });
+            v.push(Step::HSetLen { slot: s, n: 100_000 });
+            v.push(Step::HSetLen { slot: s, n: 7_500_000 });
+        }
+    }
+    v.push(Step::HSeek { slot: s, from: SeekFrom::End(-10) });
+    v.push(Step::HWriteAll { slot: s, len: 30 });
+    v.push(Step::HClose { slot: s });
+    v.push(Step::HOpen { slot: s, path: "/small".into(), how: OpenHow::Create });
+    v.push(Step::HWriteAll { slot: s, len: 100 });
+    v.push(Step::HClose { slot: s });
+    v.push(Step::Api(Op::Walk));
+    v.push(Step::HOpen { slot: s, path: "/big".into(), how: OpenHow::Open });
+    v.push(Step::HSeek { slot: s, from: SeekFrom::Start(6_999_000) });
+    v.push(Step::HReadExact { slot: s, n: 3000 });
+    v.push(Step::HClose { slot: s });
+    v
 }
 
 fn make_cf<F: Read + Write + Seek>(file: F, version: Version, bufsize: Option<usize>) -> std::io::Result<CompoundFile<F>> {
@@ -345,10 +400,16 @@ pub fn run_c18(ctx: &Ctx, rep: &mut Report) {
     let mut i = 0;
     while let Some(case) = ctx.next_case(&mut i) {
         let mut rng = ctx.case_rng(case);
-        let version = if rng.chance(1, 2) { Version::V3 } else { Version::V4 };
+        let big = case == 0 && ctx.shard < 6;
+        let version = if big || rng.chance(1, 2) { Version::V3 } else { Version::V4 };
         let other_version = if version == Version::V3 { Version::V4 } else { Version::V3 };
         let quick = ctx.quick();
-        let gen_res = guard::catch(|| generate(&mut rng, version, quick, rep));
+        let gen_res = if big {
+            rep.count("histories_with_difat_chain");
+            Ok(Ok(big_steps(ctx.shard)))
+        } else {
+            guard::catch(|| generate(&mut rng, version, quick, rep))
+        };
         let steps = match gen_res {
             Ok(Ok(s)) => s,
             Ok(Err(_)) => {
